@@ -20,7 +20,7 @@ RULE = ('case = 1..6 base stations above the floor, misalignment rotation 0..30 
 ASSUMPTIONS = ['noise-free exactness tolerance 1e-4 m / 1e-4 rad (measured worst values in the evidence)',
                'with noise only rigidity, properness and a 10-sigma bound on the mapped reference points are required']
 REQUIRED = ['mon.align_noise_free', 'mon.align_noisy', 'mon.align_mirror_cases', 'mon.rigidity_pairs', 'mon.scale_fixed_point',
-            'mon.scale_diagonals', 'mon.inputs_unchanged', 'mon.misalignment_25_to_30_deg']
+            'mon.scale_diagonals', 'mon.inputs_unchanged', 'mon.misalignment_25_to_30_deg', 'mon.scale_with_repeated_pose_objects']
 
 
 def cases(tier, seed):
@@ -173,6 +173,20 @@ def run(desc, ctx):
             ctx.count('mon.scale_fixed_point')
             out = LighthouseSystemScaler.scale_fixed_point(bs_in, cf_in, cf_w[k].translation, cf_in[k])
             check_scaled('fixed-point', out[0], out[1], out[2], s_true, 1e-9)
+            # the same Pose object several times in the list (a Crazyflie standing still while samples are recorded,
+            # or the reference pose appended to the list it came from)
+            alias = ([cf_in[k]] * rnd.randint(2, 4)) if rnd.random() < 0.5 else (list(cf_in) + [cf_in[k]])
+            out = LighthouseSystemScaler.scale_fixed_point(bs_in, alias, cf_w[k].translation, cf_in[k])
+            ctx.count('mon.scale_with_repeated_pose_objects')
+            oka = len(out[1]) == len(alias) and abs(out[2] - s_true) <= 1e-9 * max(1.0, s_true)
+            for a, b in zip(out[1], alias):
+                if not np.array_equal(a.rot_matrix, b.rot_matrix) or np.linalg.norm(a.translation - b.translation * out[2]) > 1e-12 * max(1, out[2]):
+                    oka = False
+            if not oka:
+                ctx.violate('scale:fixed-point:not-uniform-or-wrong-factor:repeated-pose-object', {'factor': out[2], 'wanted': s_true,
+                                                                                                   'poses': len(alias)}, replay=rp)
+            if not all(_pose_eq(a, b) for a, b in zip(cf_in, cf_keep)):
+                ctx.violate('scale:fixed-point:inputs-modified', {'s': out[2]}, replay=rp)
         # diagonals: measurements from the true geometry, system shrunk by s_true
         samples = []
         for c in rm['cf']:
